@@ -1,3 +1,3 @@
 SPECIFICATION TSpec
-INVARIANTS SoundConnected SoundHopBounds SoundFeesPaid SoundDeltas SoundFinal SoundFeeLimit SoundCltvLimit SoundRestrictions SoundPayload SoundTotals PaidThrough
+INVARIANTS SizeModelAgrees SoundConnected SoundHopBounds SoundFeesPaid SoundDeltas SoundFinal SoundFinalPayload SoundFeeLimit SoundCltvLimit SoundRestrictions SoundPayload SoundTotals PaidThrough
 CHECK_DEADLOCK TRUE
